@@ -36,6 +36,8 @@ def main():
             kind = 'MISSED' if c.returncode == 0 else ('tie/corr.' if vio and vio[0].endswith('no-failing-input-found') else 'input')
             rows.append((pid, k, kind, '%.0fs' % (time.time() - t0)))
             print(pid, 'm%s' % k, kind, flush=True)
+            m['final_own_check'] = kind          # the evaluation on the final tree (tools/seed_table.py prefers it)
+            json.dump(m, open(f, 'w'), indent=1)
     finally:
         sh('git -C %s worktree remove --force %s' % (REPO, WT))
         sh('git checkout -q -- evidence', cwd=VERIF)      # the checks above rewrote evidence files from changed trees
